@@ -367,6 +367,21 @@ func (g *genCtx) drawModule(name string, label string) *Module {
 			f := &rc.FieldJ{Name: "de", Tag: tag, Type: &rc.TypeJ{K: "enum", Ref: name + "." + m.Enums[0].Name}}
 			g.drawDefault(f, label+".dev")
 			st.Fields = append(st.Fields, f)
+			tag++
+		}
+		// and two fixed-size array members, an optional and a required one (arrays are rare
+		// among the drawn member types)
+		for k, req := range []bool{false, true} {
+			el := g.drawType(1, false, label+".dael")
+			if !g.arrayElemOK(el) {
+				el = &rc.TypeJ{K: scalarKinds[g.pick(len(scalarKinds), label+".daes")]}
+			}
+			if !g.arrayElemOK(el) {
+				continue
+			}
+			st.Fields = append(st.Fields, &rc.FieldJ{Name: fmt.Sprintf("da%d", k), Tag: tag, Require: req,
+				Type: &rc.TypeJ{K: "array", Elem: el, N: rapid.IntRange(1, 4).Draw(g.rt, label+".dan")}})
+			tag += 1 + g.pick(2, label+".dagap")
 		}
 		m.Structs = append(m.Structs, st)
 		m.DeclOrder = append(m.DeclOrder, seq(len(st.Fields)))
